@@ -210,7 +210,7 @@ func (g *fgen) callInner(in ssa.CallInstruction, st *state) []val {
 func (g *fgen) applyModset(ms *modset, st *state, who string) {
 	if ms.all {
 		keep := map[string]string{}
-		for k := range ms.preserve {
+		for _, k := range sortedKeys(ms.preserve) {
 			if me, ok := ms.preserveEntries[k]; ok {
 				me.register(g, k)
 			}
@@ -225,7 +225,8 @@ func (g *fgen) applyModset(ms *modset, st *state, who string) {
 		}()
 		if ms.heapOnly {
 			g.havocHeap(st)
-			for k, me := range ms.any {
+			for _, k := range sortedKeys(ms.any) {
+				me := ms.any[k]
 				if strings.HasPrefix(k, "G_ghost_") {
 					me.register(g, k)
 					g.havocKey(st, k)
@@ -246,11 +247,13 @@ func (g *fgen) applyModset(ms *modset, st *state, who string) {
 		st.heap = map[string]string{}
 		st.epoch = ep
 	}
-	for k, me := range ms.any {
+	for _, k := range sortedKeys(ms.any) {
+		me := ms.any[k]
 		me.register(g, k)
 		g.havocKey(st, k)
 	}
-	for k, me := range ms.fresh {
+	for _, k := range sortedKeys(ms.fresh) {
+		me := ms.fresh[k]
 		if _, dup := ms.any[k]; dup {
 			continue
 		}
@@ -328,7 +331,8 @@ func (g *fgen) applyContract(fc *funcContract, callee *ssa.Function, recv *val, 
 		}
 		if callee != nil && callee.Blocks != nil && !fc.pure {
 			cm := g.w.modsetOf(callee)
-			for k, v := range cm.fresh {
+			for _, k := range sortedKeys(cm.fresh) {
+				v := cm.fresh[k]
 				ms.fresh[k] = v
 			}
 			ms.allocs = true
@@ -695,7 +699,8 @@ func (g *fgen) modIfKeys(fc *funcContract) map[string]bool {
 		if err != nil {
 			panic(transErr(fmt.Sprintf("%s: modifies-if item %s: %v", fc.where, item, err)))
 		}
-		for k, me := range keys {
+		for _, k := range sortedKeys(keys) {
+			me := keys[k]
 			me.register(g, k)
 			out[k] = true
 		}
